@@ -6,6 +6,7 @@ import (
 	"fmt"
 	"io/fs"
 	"strings"
+	"time"
 
 	vuego "github.com/titpetric/vuego"
 )
@@ -39,6 +40,28 @@ func catFuncs() vuego.FuncMap {
 			v, _ := ctx.Stack().Resolve(key)
 			return v
 		},
+		// total functions with parameters of the kinds a template's values have to be converted to
+		"longdate":  func(t time.Time) string { return t.UTC().Format("2006") },
+		"itemtitle": func(it Item) string { return it.Title },
+		"ptitle": func(it *Item) string {
+			if it == nil {
+				return "nil"
+			}
+			return it.Title
+		},
+		"sumints": func(xs []int) int {
+			n := 0
+			for _, x := range xs {
+				n += x
+			}
+			return n
+		},
+		"nkeys":  func(m map[string]any) int { return len(m) },
+		"flagof": func(b bool) string { return fmt.Sprint(b) },
+		"halfof": func(f float64) float64 { return f / 2 },
+		"pairof": func(a [2]int) int { return a[0] + a[1] },
+		"anyof":  func(v any) string { return fmt.Sprintf("%T", v) },
+		"joinv":  func(sep string, parts ...string) string { return strings.Join(parts, sep) },
 		"failif": func(s string) (string, error) {
 			if s == "boom" {
 				return "", errors.New("failif: boom")
